@@ -684,7 +684,9 @@ def prog_multi(seed: int, n_ops: int = 8, *, three: float = 0.3, prefs: float = 
             r = g.chain(t, rng.choice(cands))
         else:
             def ok(u: str) -> bool:
-                return not ((g.cols[u] & g.cols[t]) & NONKEY) and u != t
+                # operands read disjoint leaves: no self-joins and never one object under two names
+                return not ((g.cols[u] & g.cols[t]) & NONKEY) and \
+                    not (g.leaves_of.get(u, frozenset()) & g.leaves_of.get(t, frozenset()))
 
             u = g.pick(pred=ok)
             if u is None:
